@@ -159,6 +159,30 @@ def num_attr(ex, v: Num, attr, node):
     return None
 
 
+def is_label(v):
+    return isinstance(v, Num) and v.meta.get("kind") == "LABEL"
+
+
+def watch_labels(ex, fv, args, kwargs, node):
+    """KIND rule: a value of kind LABEL (an index handed in by the caller) may only flow into
+    len() and into the index= argument of a pandas constructor; anything else is recorded."""
+    lab_pos = [i for i, a in enumerate(args) if is_label(a)]
+    lab_kw = [k for k, a in kwargs.items() if is_label(a)]
+    if not lab_pos and not lab_kw:
+        return
+    if isinstance(fv, (FuncV, ClassV, ClosureV)):
+        return  # flows into repository code, which is analysed itself
+    name = fv.dotted if isinstance(fv, ExtV) else (f"{valkey(fv.recv)[:60]}.{fv.name}" if isinstance(fv, BoundExt) else valkey(fv)[:80])
+    if isinstance(fv, ExtV) and fv.dotted in ("builtins.len", "builtins.isinstance", "builtins.type"):
+        return
+    if isinstance(fv, ExtV) and fv.dotted in ("pandas.DataFrame", "pandas.Series"):
+        if lab_kw == ["index"] and not lab_pos:
+            return
+        if lab_pos == [1] and not lab_kw:
+            return
+    ex.emit("label_use", node, callee=name, args=[valkey(a)[:40] for a in args])
+
+
 RAW_COMMON_ATTRS = {"shape", "ndim"}  # available on ndarray, Series and DataFrame alike
 
 
@@ -1662,6 +1686,13 @@ def opaque_method(ex, recv: OpaqueV, name, args, kwargs, node):
         if name == "__call__":
             return ex.call(fn, args, kwargs, node)
     ex.emit("opaque_method", node, recv=recv, method=name, args=args, kwargs=kwargs)
+    if name in ("to_list", "tolist"):
+        ex.list_counter += 1
+        r = ListV([], opaque=True, lid=ex.list_counter)
+        r.from_opaque = recv
+        r.numeric = True
+        r.key = f"{recv.key}.{name}()"
+        return r
     meta = {"recv": recv, "method": name, "args": args, "kwargs": kwargs}
     if name in ("to_numpy", "to_list", "tolist") or name == "values":
         meta["alias_of"] = recv
